@@ -521,7 +521,7 @@ def replay(ctx, path):
     rows, stats = go_replay(ctx, [tour], "replay", 1, 600)
     bad = [r for r in rows if r.get("kind") in ("bad", "flaky")]
     last = tour["steps"][-1]
-    print(json.dumps({"history": [("dns_config %s" % s["req"]["has"]) if s["a"] == "set" else ("%s down=%s" % (s["u"], s["on"])) if s["a"] == "down"
+    print(json.dumps({"history": [("dns_config %s" % s["req"]["has"]) if s["a"] == "set" else ("%s down=%s" % (s["u"], s.get("on", False))) if s["a"] == "down"
                                   else s["a"] for s in tour["steps"]][-12:],
                       "expected": last.get("res") and [{"code": r["code"]} for r in last["res"]] or last.get("alts") or last.get("out"),
                       "observed": [{"what": b["what"], "got": b["got"]} for b in bad] or "admissible",
